@@ -995,6 +995,178 @@ fn dec_string(rng: &mut Rng, p: usize, s: i64) -> String {
     format!("{}{}", sign, core)
 }
 
+
+// ---------------------------------------------------------------- dense boundary enumeration
+
+fn p10(k: u32) -> i256 {
+    pow10_256(k)
+}
+fn i256_of(v: i128) -> i256 {
+    i256::from_i128(v)
+}
+fn native_fits(w: u32, v: i256) -> bool {
+    match w {
+        32 => v >= i256_of(i32::MIN as i128) && v <= i256_of(i32::MAX as i128),
+        64 => v >= i256_of(i64::MIN as i128) && v <= i256_of(i64::MAX as i128),
+        128 => v >= i256_of(i128::MIN) && v <= i256_of(i128::MAX),
+        _ => true,
+    }
+}
+/// number of decimal digits of the widest magnitude of an integer type
+fn type_digits(t: &str) -> usize {
+    match t {
+        "i8" | "u8" => 3,
+        "i16" | "u16" => 5,
+        "i32" | "u32" => 10,
+        "i64" => 19,
+        _ => 20,
+    }
+}
+
+/// Deterministic, exhaustive-over-parameters boundary cases (emitted in every run, both modes):
+/// precisions around the digit count of the source/target type, values at and around
+/// `10^(p-s)`, `±(10^p - 1)`, `±10^p`, type MIN/MAX, and the rounding carry into `10^p2`.
+fn boundary_cases() -> Vec<(String, String)> {
+    let mut out = vec![];
+    let widths = [32u32, 64, 128, 256];
+    let mut push = |src: String, dst: String, vals: Vec<i256>, srcw: Option<u32>, tag: &str| {
+        let mut v: Vec<String> = vec![];
+        for x in vals {
+            if srcw.map_or(true, |w| native_fits(w, x)) {
+                let t = x.to_string();
+                if !v.contains(&t) {
+                    v.push(t);
+                }
+            }
+        }
+        if v.is_empty() {
+            return;
+        }
+        // a null with an extreme-but-native payload in front
+        v.insert(0, format!("n:{}", v[v.len() - 1]));
+        for safe in [1, 0] {
+            out.push((format!("C13 cast 0 {} {} {} {}", src, dst, safe, v.join(",")), format!("op:cast g:boundary-{} safe:{} nt", tag, safe)));
+        }
+    };
+    // integer -> decimal
+    for src in INTS {
+        let (lo, hi) = int_range(src).unwrap();
+        let d = type_digits(src);
+        for w in widths {
+            for s in [0usize, 1, 3] {
+                for dp in [-1i64, 0, 1] {
+                    let p = d as i64 + dp + s as i64;
+                    if p < 1 || p as usize > max_p(w) || s as i64 > p {
+                        continue;
+                    }
+                    let k = (p as usize - s) as u32;
+                    let mut vals = vec![];
+                    for b in [p10(k), p10(k.saturating_sub(1))] {
+                        for dlt in [-1i128, 0, 1] {
+                            vals.push(b.wrapping_add(i256_of(dlt)));
+                            vals.push(b.wrapping_neg().wrapping_add(i256_of(dlt)));
+                        }
+                    }
+                    for x in [lo, lo + 1, hi, hi - 1, 0, 1, -1] {
+                        vals.push(i256_of(x));
+                    }
+                    let vals: Vec<i256> = vals.into_iter().filter(|x| *x >= i256_of(lo) && *x <= i256_of(hi)).collect();
+                    push(src.to_string(), dec_tok(w, p as usize, s as i64), vals, None, "int-dec");
+                }
+            }
+        }
+    }
+    // decimal -> integer
+    for dst in INTS {
+        let (lo, hi) = int_range(dst).unwrap();
+        let d = type_digits(dst);
+        for w in widths {
+            for s in [0usize, 1, 3] {
+                for dp in [-1i64, 0, 1] {
+                    let p = d as i64 + dp + s as i64;
+                    if p < 1 || p as usize > max_p(w) {
+                        continue;
+                    }
+                    let sc = p10(s as u32);
+                    let mut vals = vec![];
+                    for b in [p10(p as u32), p10(p as u32 - 1)] {
+                        for dlt in [-1i128, 0] {
+                            vals.push(b.wrapping_add(i256_of(dlt)));
+                            vals.push(b.wrapping_add(i256_of(dlt)).wrapping_neg());
+                        }
+                    }
+                    for e in [hi, hi + 1, lo, lo - 1] {
+                        let b = i256_of(e).wrapping_mul(sc);
+                        for dlt in [-1i128, 0, 1] {
+                            vals.push(b.wrapping_add(i256_of(dlt)));
+                        }
+                        // last value that still truncates to e / first that does not
+                        let edge = if e >= 0 { b.wrapping_add(sc).wrapping_sub(i256::ONE) } else { b.wrapping_sub(sc).wrapping_add(i256::ONE) };
+                        vals.push(edge);
+                    }
+                    vals.push(i256::ZERO);
+                    // keep the declared-precision domain (out-of-domain values run in the random stream)
+                    let lim = p10(p as u32);
+                    let vals: Vec<i256> = vals.into_iter().filter(|x| *x < lim && *x > lim.wrapping_neg()).collect();
+                    push(dec_tok(w, p as usize, s as i64), dst.to_string(), vals, Some(w), "dec-int");
+                }
+            }
+        }
+    }
+    // decimal -> decimal
+    for w1 in widths {
+        for w2 in widths {
+            for p1 in [3usize, max_p(w1)] {
+                for s1 in [0i64, 2] {
+                    for delta in [-2i64, -1, 0, 1, 2] {
+                        for dp in [-1i64, 0, 1] {
+                            let p2 = p1 as i64 + delta + dp;
+                            let s2 = s1 + delta;
+                            if p2 < 1 || p2 as usize > max_p(w2) || s2 > p2 || s1 > p1 as i64 {
+                                continue;
+                            }
+                            let mut vals = vec![];
+                            for b in [p10(p1 as u32), p10(p1 as u32 - 1)] {
+                                for dlt in [-1i128, 0] {
+                                    let x = b.wrapping_add(i256_of(dlt));
+                                    vals.push(x);
+                                    vals.push(x.wrapping_neg());
+                                }
+                            }
+                            // inputs whose rescaled image is at the output boundary 10^p2 - 1 | 10^p2
+                            let bt = p10(p2 as u32);
+                            if delta >= 0 {
+                                let m = p10(delta as u32);
+                                let q = bt.wrapping_div(m);
+                                for dlt in [-1i128, 0, 1] {
+                                    let x = q.wrapping_add(i256_of(dlt));
+                                    vals.push(x);
+                                    vals.push(x.wrapping_neg());
+                                }
+                            } else {
+                                let k = (-delta) as u32;
+                                let m = p10(k);
+                                let half = p10(k - 1).wrapping_mul(i256_of(5));
+                                for base in [bt.wrapping_mul(m), bt.wrapping_sub(i256::ONE).wrapping_mul(m)] {
+                                    for x in [base.wrapping_sub(half).wrapping_sub(i256::ONE), base.wrapping_sub(half), base, base.wrapping_add(half).wrapping_sub(i256::ONE), base.wrapping_add(half)] {
+                                        vals.push(x);
+                                        vals.push(x.wrapping_neg());
+                                    }
+                                }
+                            }
+                            vals.push(i256::ZERO);
+                            let lim = p10(p1 as u32);
+                            let vals: Vec<i256> = vals.into_iter().filter(|x| *x < lim && *x > lim.wrapping_neg()).collect();
+                            push(dec_tok(w1, p1, s1), dec_tok(w2, p2 as usize, s2), vals, Some(w1), "dec-dec");
+                        }
+                    }
+                }
+            }
+        }
+    }
+    out
+}
+
 fn gen_cast(rng: &mut Rng) -> (String, String) {
     let var = gen_var(rng);
     let safe = rng.below(2);
@@ -1014,9 +1186,30 @@ fn gen_cast(rng: &mut Rng) -> (String, String) {
         // integer → decimal
         let s = *rng.pick(&INTS);
         let w = gen_width(rng);
-        let p = gen_prec(rng, w);
-        let sc = gen_scale(rng, p);
-        (s.into(), dec_tok(w, p, sc), int_vals(rng, s), format!("g:int-dec sc:{}", if sc < 0 { "neg" } else { "nonneg" }))
+        let (p, sc) = if rng.chance(1, 2) {
+            // precision around the digit count of the source type (plus the scale)
+            let sc = rng.range(0, 4);
+            let p = (type_digits(s) as i64 + rng.range(-1, 1) + sc).clamp(1, max_p(w) as i64) as usize;
+            (p, sc.min(p as i64))
+        } else {
+            let p = gen_prec(rng, w);
+            (p, gen_scale(rng, p))
+        };
+        let mut vals = int_vals(rng, s);
+        if sc >= 0 && p as i64 >= sc && rng.chance(2, 3) {
+            // values at and around 10^(p-s), clipped to the source range
+            let (lo, hi) = int_range(s).unwrap();
+            let k = (p as i64 - sc) as u32;
+            if k <= 38 {
+                let b = 10i128.pow(k);
+                for x in [b - 1, b, b + 1, -b + 1, -b, -b - 1, hi, lo] {
+                    if x >= lo && x <= hi {
+                        vals.push(x.to_string());
+                    }
+                }
+            }
+        }
+        (s.into(), dec_tok(w, p, sc), vals, format!("g:int-dec sc:{}", if sc < 0 { "neg" } else { "nonneg" }))
     } else if g < 40 {
         // decimal → integer
         let d = *rng.pick(&INTS);
@@ -1585,6 +1778,12 @@ fn main() {
         let grid = type_grid();
         // the can_cast grid: exhaustive over ordered pairs in the thorough tier, sampled otherwise
         let n_grid = if thorough { grid.len() * grid.len() } else { 1200 };
+        // dense boundary enumeration (deterministic, every run, both modes)
+        if args.cases.is_none() {
+            for (line, tags) in boundary_cases() {
+                emit(&mut sink, line, tags, None);
+            }
+        }
         let mut idx = 0usize;
         for _ in 0..n_grid.min(if args.cases.is_some() { n } else { usize::MAX }) {
             let (line, tags) = gen_cancast(&mut rng, &grid, &mut idx, thorough);
